@@ -49,6 +49,8 @@ CYCLE_SEEDS = {
     'eq_const': '(declare-const x Int)\n(assert (= x 0))\n',
     'eq_var': '(declare-const x Int)\n(declare-const y Int)\n'
               '(assert (= x y))\n(assert (> y 1))\n',
+    'eq_term': '(declare-const x Int)\n(declare-const y Int)\n'
+               '(assert (= x (+ y 1)))\n(assert (> x 0))\n',
     'inline_self': '(declare-const a Int)\n'
                    '(define-fun f ((a Int)) Int (+ a 1))\n'
                    '(assert (> (f (+ a 1)) (f a)))\n',
